@@ -14,3 +14,25 @@ impl ScorerBuilder {
     #[verifier::external_body]
     pub fn build_any(&self) -> Scorer { unimplemented!() }
 }
+
+// ---- shared by units dualbuild and rawbuild: contracts of the stubs U31x8::to_simd_vec and RawConnectorBuilder::from_readers ----
+/// lane i of a table stored as 8-lane vectors
+pub open spec fn simd_lane(v: Seq<U31x8>, i: int) -> U31 { v[i / 8].0[i % 8] }
+
+/// the same table as 8-lane vectors
+pub open spec fn simd_of(v: Seq<U31x8>, t: Seq<U31>) -> bool {
+    &&& v.len() * 8 == t.len()
+    &&& forall|i: int| 0 <= i < t.len() ==> #[trigger] simd_lane(v, i) == t[i]
+}
+/// the result of the (unverified) file reader RawConnectorBuilder::from_readers, as a function of the three readers
+pub uninterp spec fn raw_builder_result<R, L, C>(right_rdr: R, left_rdr: L, cost_rdr: C) -> Result<RawConnectorBuilder, VibratoError>;
+
+/// ASSUMED about what RawConnectorBuilder::from_readers returns (read off its body, which is string / HashMap code outside Verus):
+/// feat_template_size is the maximum row length, and the padded tables fit in the address space (each row is a live Vec)
+pub open spec fn builder_shape(b: RawConnectorBuilder) -> bool {
+    &&& forall|r: int| 0 <= r < b.right_feat_ids_tmp.len() ==> (#[trigger] b.right_feat_ids_tmp[r]).len() <= b.feat_template_size
+    &&& forall|r: int| 0 <= r < b.left_feat_ids_tmp.len() ==> (#[trigger] b.left_feat_ids_tmp[r]).len() <= b.feat_template_size
+    &&& (b.right_feat_ids_tmp.len() + 1) * (b.feat_template_size + 8) <= usize::MAX
+    &&& (b.left_feat_ids_tmp.len() + 1) * (b.feat_template_size + 8) <= usize::MAX
+}
+
